@@ -53,6 +53,7 @@ structure Book where
   idleNow   : Bool := false                -- … and that poll is the current op
   lastCounts : Nat := 0                    -- in-flight count reported at the end of the previous channel poll
   abandonOrder : List Nat := []            -- executions the application dropped, in order
+  tableAtPollStart : Nat := 0              -- size of `table` when the current channel poll began
 deriving Repr
 
 def Book.exec (b : Book) (r : Nat) : Option BExec := b.execs.find? (·.rid == r)
@@ -100,7 +101,7 @@ def Book.step (b : Book) : SEv → Book
   | .op o =>
       let b := b.endOp
       match o with
-      | .pollServer => { b with topPoll := true }
+      | .pollServer => { b with topPoll := true, tableAtPollStart := b.table.length }
       | .dropServer => { b with dropped := true }
       | .dropExec r => { b with curDropExec := some r }
       | .advance n => { b with now := b.now + n }
@@ -363,7 +364,9 @@ def checkC12 (b : Book) (yieldedNow : Bool) : SEv → Bool × Option String
             if b.table.length < l then
               -- the known over-throttle: the limit test is made before the inner poll, which may first
               -- process cancellations / expirations and only then read the request
-              let how := if b.lastCounts ≥ l then " (the channel was at its limit when this poll began and dropped below it before the request was read)" else ""
+              -- (known finding only if the yielded-and-unfinished requests really were at the limit when the
+              -- poll began; a count that is merely stale — entries the channel failed to reclaim — is not it)
+              let how := if b.tableAtPollStart ≥ l && b.lastCounts ≥ l then " (the channel was at its limit when this poll began and dropped below it before the request was read)" else ""
               (yieldedNow, some s!"request id {id} refused with only {b.table.length} request(s) in flight, limit {l}{how}")
             else (yieldedNow, none)
           else (yieldedNow, none)
